@@ -3,7 +3,9 @@
 //! runs as cases for the binary32 model (outputs compared bit-for-bit by `coqc`), and (2) evaluates
 //! the laws themselves on the implementation with long signals: partition independence (bit-exact),
 //! dry identity / identity settings (exact), silence in -> silence out with cleared state (exact),
-//! superposition and scaling (1e-4 of peak), finiteness over long runs at parameter edges.
+//! superposition and scaling (1e-4 of peak), finiteness over long runs at parameter edges; the identity
+//! settings reached through a modulator + mapping (value at / beyond the end of the input range, every easing);
+//! finiteness across histories of device sample rates (on_change_sample_rate, also before the first frame).
 use crate::util::*;
 use kira::effect::compressor::CompressorBuilder;
 use kira::effect::delay::DelayBuilder;
@@ -15,7 +17,8 @@ use kira::effect::reverb::ReverbBuilder;
 use kira::effect::volume_control::VolumeControlBuilder;
 use kira::effect::{Effect, EffectBuilder};
 use kira::info::{Info, MockInfoBuilder};
-use kira::{Frame, Panning, Value};
+use kira::modulator::ModulatorId;
+use kira::{Decibels, Easing, Frame, Mapping, Mix, Panning, Value};
 use std::collections::BTreeSet;
 use std::time::Duration;
 
@@ -557,6 +560,11 @@ fn hash(s: &str) -> u64 {
 
 fn emit_case(s: &mut Session, cx: &Ctx, kind: &str, d: &Desc, sr: u32, t: usize, slices: &[usize], input: &[Frame]) -> Outcome<Vec<Frame>> {
 	let out = run_effect(cx, d, sr, t, slices, input);
+	emit_obs(s, kind, d, sr, t, slices, input, out)
+}
+
+/// send `out` (what the implementation did) as the observable of the model case (d, sr, t, slices, input)
+fn emit_obs(s: &mut Session, kind: &str, d: &Desc, sr: u32, t: usize, slices: &[usize], input: &[Frame], out: Outcome<Vec<Frame>>) -> Outcome<Vec<Frame>> {
 	let obs = match &out {
 		Outcome::Ok(v) => {
 			let mut o = vec![0];
@@ -664,6 +672,210 @@ fn full_scale_noise(r: &mut Rng, n: usize) -> Vec<Frame> {
 			_ => Frame::new(unit32(r), unit32(r)),
 		})
 		.collect()
+}
+
+
+// ------------------------------------------------------------------ parameters linked to a modulator
+
+/// One parameter of an effect given as `Value::FromModulator` instead of `Value::Fixed`: the modulator's
+/// (constant) value `v` goes through `Mapping { input_range: input, output_range: output, easing }`.
+#[derive(Clone, Debug)]
+struct Link {
+	v: f64,
+	input: (f64, f64),
+	output: (f32, f32),
+	easing: Easing,
+}
+impl Link {
+	fn value<T>(&self, id: ModulatorId, mk: fn(f32) -> T) -> Value<T> {
+		Value::FromModulator { id, mapping: Mapping { input_range: self.input, output_range: (mk(self.output.0), mk(self.output.1)), easing: self.easing } }
+	}
+	/// the position of `v` in the input range, as `Mapping::map` computes it (before pinning it to 0..=1)
+	fn raw_amount(&self) -> f64 {
+		(self.v - self.input.0) / (self.input.1 - self.input.0)
+	}
+}
+
+/// `d` with ONE parameter linked: the distortion's drive if `drive`, otherwise the parameter that has an
+/// identity setting (mix of the five effects that have one, the volume, the panning, the EQ gain)
+fn build_linked(d: &Desc, l: &Link, id: ModulatorId, drive: bool) -> Box<dyn Effect> {
+	match d {
+		Vol(_) => VolumeControlBuilder(l.value(id, Decibels)).build().0,
+		Pan(_) => PanningControlBuilder(l.value(id, Panning)).build().0,
+		Dist { hard, db, mix } => {
+			let b = DistortionBuilder::new().kind(if *hard { DistortionKind::HardClip } else { DistortionKind::SoftClip });
+			if drive {
+				b.drive(l.value(id, Decibels)).mix(*mix).build().0
+			} else {
+				b.drive(*db).mix(l.value(id, Mix)).build().0
+			}
+		}
+		Filter { mode, cutoff, res, .. } => FilterBuilder::new()
+			.mode(match mode {
+				0 => FilterMode::LowPass,
+				1 => FilterMode::BandPass,
+				2 => FilterMode::HighPass,
+				_ => FilterMode::Notch,
+			})
+			.cutoff(*cutoff)
+			.resonance(*res)
+			.mix(l.value(id, Mix))
+			.build()
+			.0,
+		Eq { kind, freq, q, .. } => EqFilterBuilder::new(
+			match kind {
+				0 => EqFilterKind::Bell,
+				1 => EqFilterKind::LowShelf,
+				_ => EqFilterKind::HighShelf,
+			},
+			*freq,
+			l.value(id, Decibels),
+			*q,
+		)
+		.build()
+		.0,
+		Comp { thr, ratio, att, rel, mk, .. } => CompressorBuilder::new()
+			.threshold(*thr)
+			.ratio(*ratio)
+			.attack_duration(*att)
+			.release_duration(*rel)
+			.makeup_gain(*mk)
+			.mix(l.value(id, Mix))
+			.build()
+			.0,
+		Delay { time, fb, fx, .. } => {
+			let mut b = DelayBuilder::new().delay_time(*time).feedback(*fb).mix(l.value(id, Mix));
+			for d in fx {
+				b = b.with_feedback_effect(Boxed(d.clone()));
+			}
+			b.build().0
+		}
+		Reverb { fb, damp, width, .. } => ReverbBuilder::new().feedback(*fb).damping(*damp).stereo_width(*width).mix(l.value(id, Mix)).build().0,
+	}
+}
+
+/// build with the link, init, one call on `warm` frames of silence (the call in which the parameter goes from
+/// its default to the modulator's value), then the input in the given slices.  Returns (warm-up output, output).
+fn run_linked(d: &Desc, l: &Link, drive: bool, sr: u32, t: usize, warm: usize, slices: &[usize], input: &[Frame]) -> Outcome<(Vec<Frame>, Vec<Frame>)> {
+	catch(|| {
+		let mut ib = MockInfoBuilder::new();
+		let id = ib.add_modulator(l.v);
+		let info = ib.build();
+		let mut e = build_linked(d, l, id, drive);
+		e.init(sr, t);
+		let dt = 1.0 / sr as f64;
+		let mut w = vec![Frame::ZERO; warm];
+		e.on_start_processing();
+		e.process(&mut w, dt, &info);
+		let mut buf = input.to_vec();
+		let mut pos = 0usize;
+		for &n in slices {
+			let end = (pos + n).min(buf.len());
+			e.on_start_processing();
+			e.process(&mut buf[pos..end], dt, &info);
+			pos = end;
+		}
+		if pos < buf.len() {
+			e.on_start_processing();
+			e.process(&mut buf[pos..], dt, &info);
+		}
+		(w, buf)
+	})
+}
+
+fn gen_easing(r: &mut Rng) -> Easing {
+	let p = r.range(1, 5) as i32;
+	let pf = *r.pick(&[0.5f64, 1.5, 2.0, 2.5, 3.0, 0.3]);
+	match r.below(7) {
+		0 => Easing::Linear,
+		1 => Easing::InPowi(p),
+		2 => Easing::OutPowi(p),
+		3 => Easing::InOutPowi(p),
+		4 => Easing::InPowf(pf),
+		5 => Easing::OutPowf(pf),
+		_ => Easing::InOutPowf(pf),
+	}
+}
+/// a non-degenerate input range, either orientation
+fn gen_input_range(r: &mut Rng) -> (f64, f64) {
+	match r.below(5) {
+		0 => (0.0, 1.0),
+		1 => (-1.0, 1.0),
+		2 => (1.0, 0.0),
+		_ => {
+			let lo = r.range(-16, 16) as f64 / 8.0;
+			let w = *r.pick(&[1.0f64, 0.5, 2.0, 0.25, 10.0, 0.125]) * if r.chance(1, 3) { -1.0 } else { 1.0 };
+			(lo, lo + w)
+		}
+	}
+}
+/// A link whose modulator sits AT or BEYOND the end of the input range whose output is `ident` (0.0 for every
+/// identity setting: fully dry, 0 dB, centre): the mapped value is pinned to that end, i.e. the parameter is SET
+/// to its identity value.  (Both `0 + (b - 0) * 0` and `a + (0 - a) * 1` are exactly 0 in binary32.)
+fn gen_pinned_link(r: &mut Rng, other: f32) -> Link {
+	let input = gen_input_range(r);
+	let first = r.chance(1, 2);
+	let w = input.1 - input.0;
+	let over = if r.chance(1, 4) { 0.0 } else { *r.pick(&[0.5f64, 0.25, 1.0, 3.0, 0.001, 100.0, 0.75]) * (0.5 + r.unit_f64()) };
+	let mut l = Link { v: if first { input.0 - over * w } else { input.1 + over * w }, input, output: if first { (0.0, other) } else { (other, 0.0) }, easing: gen_easing(r) };
+	let a = l.raw_amount();
+	if !(if first { a <= 0.0 } else { a >= 1.0 }) {
+		l.v = if first { input.0 } else { input.1 };
+	}
+	l
+}
+/// the other end of the output range, inside the documented range of the parameter that gets linked
+fn gen_other_end(r: &mut Rng, d: &Desc, drive: bool) -> f32 {
+	match d {
+		Vol(_) => *r.pick(&[-24.0f32, -6.0, 6.0, -60.0, 12.0]),
+		Pan(_) => *r.pick(&[-1.0f32, 1.0, 0.5, -0.25]),
+		Eq { .. } => *r.pick(&[-24.0f32, -6.0, 6.0, 24.0]),
+		Dist { .. } if drive => *r.pick(&[-24.0f32, 12.0, 40.0, -6.0]),
+		_ => *r.pick(&[1.0f32, 1.0, 0.5, 0.75]),
+	}
+}
+fn linked_name(d: &Desc) -> &'static str {
+	match d {
+		Vol(_) => "volume",
+		Pan(_) => "panning",
+		Eq { .. } => "gain",
+		_ => "mix",
+	}
+}
+/// `d` with the linked parameter fixed at its identity value
+fn ident_of(d: &Desc, drive: bool) -> Desc {
+	match d {
+		Vol(_) => Vol(0.0),
+		Pan(_) => Pan(0.0),
+		Eq { kind, freq, q, .. } => Eq { kind: *kind, freq: *freq, gain: 0.0, q: *q },
+		Dist { hard, mix, .. } if drive => Dist { hard: *hard, db: 0.0, mix: *mix },
+		_ => d.with_mix(0.0),
+	}
+}
+
+// ------------------------------------------------------------------ histories of device sample rates
+
+/// init at the first rate, process the first input in slices of `t`; for every further segment
+/// `on_change_sample_rate(rate)` and process its input.  Returns the outputs per segment.
+fn run_history(cx: &Ctx, d: &Desc, t: usize, segs: &[(u32, Vec<Frame>)]) -> Outcome<Vec<Vec<Frame>>> {
+	catch(|| {
+		let mut e = d.build();
+		e.init(segs[0].0, t);
+		let mut res = vec![];
+		for (k, (sr, input)) in segs.iter().enumerate() {
+			if k > 0 {
+				e.on_change_sample_rate(*sr);
+			}
+			let dt = 1.0 / *sr as f64;
+			let mut buf = input.clone();
+			for c in buf.chunks_mut(t) {
+				e.on_start_processing();
+				e.process(c, dt, &cx.info);
+			}
+			res.push(buf);
+		}
+		res
+	})
 }
 
 pub fn run(args: &Args) {
@@ -1030,6 +1242,160 @@ pub fn run(args: &Args) {
 			}
 			_ => s.fail(describe(d, *sr), format!("process panicked: {}", last_panic()), class_of(d, *sr)),
 		}
+	}
+
+	// own stream for the scenarios below, decorrelated between seeds (`Rng::new` streams of neighbouring seeds are
+	// shifts of one another); the scenarios above keep the stream they always had
+	let mut rng = Rng::new(args.seed ^ 0xC13_0B).fork();
+	// =============================================================== parameters linked to a modulator
+	// The identity settings of the property ("set fully dry", 0 dB volume, centre panning, 0 dB EQ gain, hard
+	// clip at 0 dB drive) reached through `Value::FromModulator`: the modulator sits at or beyond the end of the
+	// mapping's input range whose output is the identity value, with every easing curve and either orientation
+	// of the ranges.  After the one call in which the parameter leaves its default, the effect must be the
+	// identity (exact, as values), and bit for bit what the model says for the same effect with the parameter
+	// fixed at the identity value.
+	let pick_linkable = |rng: &mut Rng, sr: u32, small: bool| -> (Desc, bool) {
+		let mut d = gen_desc(rng, sr, 0, true, small, false);
+		stabilize(&mut d);
+		let drive = matches!(d, Dist { .. }) && rng.chance(1, 2);
+		if drive {
+			d = Dist { hard: true, db: 0.0, mix: 1.0 };
+		}
+		(d, drive)
+	};
+	for i in 0..reps * 8 {
+		let sr = gen_sr(&mut rng);
+		let short = i % 2 == 0;
+		let (d, drive) = pick_linkable(&mut rng, sr, short || i % 4 == 1);
+		let other = gen_other_end(&mut rng, &d, drive);
+		let l = gen_pinned_link(&mut rng, other);
+		let t = if short { *rng.pick(&[8usize, 16, 64]) } else { 128 };
+		let n = if short {
+			if matches!(d, Reverb { .. }) {
+				6
+			} else {
+				rng.range(8, 20) as usize
+			}
+		} else {
+			long_n
+		};
+		// (short runs go to the model as well: a short warm-up keeps a case within its vm_compute budget)
+		let warm = rng.range(1, if short { 4 } else { t as i64 }) as usize;
+		let mut input = if i % 3 == 0 { gen_signal(&mut rng, n).0 } else { full_scale_noise(&mut rng, n) };
+		if drive {
+			// "below full scale"
+			for f in input.iter_mut() {
+				*f = Frame::new(f.left.clamp(-1.0, 1.0), f.right.clamp(-1.0, 1.0));
+			}
+		}
+		let slices = if short { gen_slices(&mut rng, n, t) } else { vec![t; n / t + 1] };
+		let what = format!("{:?} with its {} (shown at the value it is pinned to) linked to a modulator at {:?} through {:?} (position {} in the input range: pinned to the end that maps to 0.0) @ {} Hz", ident_of(&d, drive), if drive { "drive" } else { linked_name(&d) }, l.v, l, l.raw_amount(), sr);
+		s.eval_only("mon_linked_identity");
+		match run_linked(&d, &l, drive, sr, t, warm, &slices, &input) {
+			Outcome::Ok((w, o)) => {
+				if let Some(ix) = (0..o.len()).find(|&i| !(o[i].left == input[i].left && o[i].right == input[i].right)) {
+					s.fail(what.clone(), format!("parameter pinned to its identity value (fully dry / 0 dB / centre) but the signal changes: frame {ix} in {:?} out {:?}", input[ix], o[ix]), None);
+				} else if let Some(ix) = w.iter().position(|f| !(f.left == 0.0 && f.right == 0.0)) {
+					s.fail(what.clone(), format!("silence in (first call), frame {ix} out = {:?}", w[ix]), None);
+				}
+				if short && i % 4 == 0 {
+					// model: the same effect with the parameter FIXED at the identity value, run over the warm-up
+					// silence and the signal
+					let di = ident_of(&d, drive);
+					let mut all_in = vec![Frame::ZERO; warm];
+					all_in.extend_from_slice(&input);
+					let mut all_sl = vec![warm];
+					all_sl.extend_from_slice(&slices);
+					let mut all_out = w.clone();
+					all_out.extend_from_slice(&o);
+					emit_obs(&mut s, "linked_pinned_identity", &di, sr, t, &all_sl, &all_in, Outcome::Ok(all_out));
+				}
+			}
+			_ => s.fail(what, format!("process panicked: {}", last_panic()), None),
+		}
+	}
+	// finite output for finite input with a linked parameter anywhere in / around the input range, output range
+	// inside the documented range of the parameter
+	for i in 0..reps * 4 {
+		let sr = gen_sr(&mut rng);
+		let (d, drive) = pick_linkable(&mut rng, sr, i % 2 == 0);
+		let (a, b) = (gen_other_end(&mut rng, &d, drive), if rng.chance(1, 2) { 0.0 } else { gen_other_end(&mut rng, &d, drive) });
+		let input_range = gen_input_range(&mut rng);
+		let w = input_range.1 - input_range.0;
+		let l = Link { v: input_range.0 + w * (rng.unit_f64() * 4.0 - 1.5), input: input_range, output: if rng.chance(1, 2) { (a, b) } else { (b, a) }, easing: gen_easing(&mut rng) };
+		let input = full_scale_noise(&mut rng, long_n);
+		s.eval_only("mon_linked_finite");
+		let what = format!("{:?} with its {} (the value shown for it is not used) linked to a modulator at {:?} through {:?} @ {} Hz", d, if drive { "drive" } else { linked_name(&d) }, l.v, l, sr);
+		match run_linked(&d, &l, drive, sr, 128, 64, &vec![128; long_n / 128 + 1], &input) {
+			Outcome::Ok((_, o)) => {
+				if let Some(ix) = o.iter().position(|f| !f.left.is_finite() || !f.right.is_finite()) {
+					s.fail(what, format!("non-finite output {:?} at frame {ix} for finite input {:?} (finite modulator value, finite ranges)", o[ix], input[ix]), None);
+				}
+			}
+			_ => s.fail(what, format!("process panicked: {}", last_panic()), None),
+		}
+	}
+
+	// =============================================================== histories of device sample rates
+	// "finite output for finite input ... for arbitrarily long runs" where the run includes changes of the
+	// device rate (init at one rate, on_change_sample_rate to others; also a change before the first frame,
+	// which is what a track added just before a device switch sees).  Random effects and, for the two filters
+	// whose stability clamp moves with the rate, frequencies between the Nyquist frequencies of the two rates.
+	let seg_n: usize = if args.thorough { 20000 } else { 6000 };
+	let mut hist: Vec<(Desc, Vec<u32>, bool)> = vec![];
+	for i in 0..reps * 2 {
+		let k = rng.range(2, 3) as usize;
+		let mut rates: Vec<u32> = (0..k).map(|_| gen_sr(&mut rng)).collect();
+		if i % 2 == 0 {
+			rates.sort_by(|a, b| b.cmp(a));
+		}
+		let mut d = gen_desc(&mut rng, rates[0], 0, true, i % 2 == 0, false);
+		stabilize(&mut d);
+		hist.push((d, rates, i % 4 < 2));
+	}
+	for &(sr1, sr2) in &[(48000u32, 22050u32), (44100, 16000), (96000, 44100), (192000, 48000), (48000, 32000), (22050, 48000)] {
+		for &u in &[0.6f64, 0.75, 0.9] {
+			let f = u * sr2 as f64;
+			for mode in 0..4u8 {
+				hist.push((Filter { mode, cutoff: f, res: gen_unit_edge(&mut rng), mix: *rng.pick(&[1.0f32, 0.5]) }, vec![sr1, sr2], rng.chance(1, 2)));
+			}
+			for kind in 0..3u8 {
+				hist.push((Eq { kind, freq: f, gain: gen_db(&mut rng, -24.0, 24.0), q: 0.05 + rng.unit_f64() * 8.0 }, vec![sr1, sr2], rng.chance(1, 2)));
+			}
+		}
+	}
+	for (d, rates, in_flight) in hist.iter() {
+		let segs: Vec<(u32, Vec<Frame>)> = rates.iter().enumerate().map(|(k, &sr)| (sr, if k == 0 && *in_flight { vec![] } else { full_scale_noise(&mut rng, seg_n) })).collect();
+		s.eval_only("mon_finite_rate_history");
+		let what = format!("{:?}: init at {} Hz{}, then on_change_sample_rate to {:?}, {} frames of full-scale noise per rate", d, rates[0], if *in_flight { " (no frame processed at that rate)" } else { "" }, &rates[1..], seg_n);
+		match run_history(&cx, d, 128, &segs) {
+			Outcome::Ok(o) => {
+				'outer: for (k, seg) in o.iter().enumerate() {
+					if let Some(ix) = seg.iter().position(|f| !f.left.is_finite() || !f.right.is_finite()) {
+						s.fail(what.clone(), format!("non-finite output {:?} at frame {ix} of the run at {} Hz (segment {k}); input frame {:?}", seg[ix], rates[k], segs[k].1[ix]), None);
+						break 'outer;
+					}
+				}
+			}
+			_ => s.fail(what, format!("process panicked: {}", last_panic()), None),
+		}
+	}
+	// the same as short model cases (coefficients follow the rate in force, bit for bit)
+	for i in 0..(if args.thorough { 48 } else { 12 }) * mul {
+		let (sr1, sr2) = *rng.pick(&[(48000u32, 22050u32), (44100, 16000), (96000, 44100), (192000, 48000), (48000, 32000)]);
+		let f = *rng.pick(&[0.6f64, 0.75, 0.9]) * sr2 as f64;
+		let d = if i % 3 == 2 {
+			Eq { kind: rng.below(3) as u8, freq: f, gain: gen_db(&mut rng, -24.0, 24.0), q: 0.05 + rng.unit_f64() * 8.0 }
+		} else {
+			Filter { mode: rng.below(4) as u8, cutoff: f, res: gen_unit_edge(&mut rng), mix: gen_mix(&mut rng) }
+		};
+		let t = 8;
+		let n1 = if i % 2 == 0 { 0 } else { rng.range(4, 10) as usize };
+		let in1 = noise(&mut rng, n1, 1.0);
+		let in2 = noise(&mut rng, 12, 1.0);
+		let sl1 = gen_slices(&mut rng, n1, t);
+		let sl2 = gen_slices(&mut rng, 12, t);
+		emit_case_sr(&mut s, &cx, &d, sr1, sr2, t, &sl1, &in1, &sl2, &in2);
 	}
 	s.finish();
 }
